@@ -14,8 +14,8 @@ case  : {"id", "kind": "arnoldi" | "gmres", "complex": bool, "n", "M", "tol": bi
          "B": k right-hand sides, "X0": k initial guesses (gmres),
          "trim": bool (optional, arnoldi_eigs input), "drop": bool (optional, gmres switch)}
 answer: {"id", "steps", "iterations", "errors", "cols": [{"Q": M+1 vectors, "H": M columns of M+1}],
-         "eigsH": rows of the matrix handed to xnp.eig (start vector 0),
-         gmres only: "soln": k vectors, "ys": k coefficient vectors, "products"}
+         "eigsH": rows of the matrix handed to xnp.eig (start vector 0), "trimPaddingInEigs": switch used,
+         gmres only: "soln": k vectors, "ys": k coefficient vectors, "products", "dropLastRow": switch used}
 -/
 
 open Lean (Json)
@@ -60,6 +60,7 @@ def encState (M : Nat) (trim : Bool) (s : State α (Array α)) : List (String ×
    ("errors", encVec (infoErrors s)),
    ("cols", Json.arr (s.cols.toArray.map fun c =>
       Json.mkObj [("Q", encMat c.Q), ("H", encMat c.H)])),
+   ("trimPaddingInEigs", Json.bool trim),
    ("eigsH", match s.cols with
       | [] => Json.null
       | c :: _ => encMat (eigsMatrix trim M s.idx c))]
@@ -85,7 +86,8 @@ def runCase (j : Json) (_w : α) : E Json := do
     let r := GMRES.gmresCore GMRES.gaussSolve drop A n M tol B.toList X0.toList
     pure (Json.mkObj ([("id", id)] ++ encState M trim r.arn ++
       [("soln", encMat r.soln.toArray), ("ys", encMat r.ys.toArray),
-       ("products", Json.num (Lean.JsonNumber.fromNat r.products))]))
+       ("products", Json.num (Lean.JsonNumber.fromNat r.products)),
+       ("dropLastRow", Json.bool drop)]))
   else throw s!"unknown kind {kind}"
 end
 
